@@ -264,6 +264,9 @@ pub struct Profile {
     /// probability (of 256) that use_alpha is true
     pub alpha_chance: u32,
     pub max_pixels: u64,
+    /// 0 = off; otherwise a rare class of 1..2-pixel-thin images with one side up to this value
+    /// (sides of 65,536 and beyond, kernel lengths of 10^5)
+    pub huge_max: u32,
 }
 
 impl Profile {
@@ -278,10 +281,11 @@ impl Profile {
             max_multiplicity: 5,
             crop_weights: [100, 156],
             allow_fit: false,
-            content_classes: (0..CONTENT_CLASSES as u8).collect(),
+            content_classes: (0..=CONTENT_CLASSES as u8).collect(), // incl. class 10 = runs
             exts: img::exts(),
             alpha_chance: 128,
             max_pixels: 1 << 18,
+            huge_max: 0,
         }
     }
 }
@@ -336,8 +340,23 @@ pub fn decode_side(t: &mut Tape, weights: &[u32; 5], long_max: u32, allow_long: 
 /// 4 sub-pixel, 5 sub-pixel flush against the far edge
 pub fn decode_crop_axis(t: &mut Tape, n: u32) -> (f64, f64, u8) {
     let nf = n as f64;
-    let class = t.weighted(&[40, 60, 70, 40, 23, 23, 40]) as u8;
+    let class = t.weighted(&[40, 60, 70, 40, 23, 23, 40, 24]) as u8;
     let (mut l, mut w) = match class {
+        7 => {
+            // integer box whose origin and/or extent is one ulp off (exact-equality decisions of the pass logic)
+            let k = t.range(0, n - 1);
+            let m = t.range(1, n - k);
+            let nudge = |t: &mut Tape, v: f64| -> f64 {
+                match t.below(3) {
+                    0 => v,
+                    1 => next_down(v),
+                    _ => next_up(v),
+                }
+            };
+            let l = nudge(t, k as f64).max(0.0);
+            let w = nudge(t, m as f64);
+            (l, w)
+        }
         6 => {
             // fractional origin, integer extent (a pure sub-pixel shift when the destination has that extent)
             if n < 2 {
@@ -567,9 +586,35 @@ impl ResizeSpec {
                 dh = (dh / 2).max(1)
             }
         }
+        if p.huge_max > 0 && t.chance(5) {
+            const HUGE: [u32; 8] = [65535, 65536, 65537, 70001, 131072, 131075, 300007, 524288];
+            let cands: Vec<u32> = HUGE.iter().copied().filter(|v| *v <= p.huge_max).collect();
+            if !cands.is_empty() {
+                let big = t.pick(&cands);
+                let thin = 1 + t.below(2);
+                let small = match t.below(5) {
+                    0 => 1,
+                    1 => 2,
+                    2 => t.range(3, 100),
+                    3 => (big / 2).max(1),
+                    _ => big.saturating_add(1).min(p.huge_max),
+                };
+                if t.bool() {
+                    sw = big;
+                    sh = thin;
+                    dw = small;
+                    dh = 1 + t.below(2);
+                } else {
+                    sh = big;
+                    sw = thin;
+                    dh = small;
+                    dw = 1 + t.below(2);
+                }
+            }
+        }
         let content = decode_content(t, p);
         let has_crop = t.weighted(&p.crop_weights) == 1;
-        let (crop, crop_class) = if has_crop {
+        let (mut crop, mut crop_class) = if has_crop {
             if p.allow_fit && t.chance(40) {
                 let cx = [0.0, 0.5, 1.0, 0.25, -1.0, 2.0][t.below(6) as usize];
                 let cy = [0.5, 0.0, 1.0, 0.75, 3.0, -0.5][t.below(6) as usize];
@@ -585,26 +630,54 @@ impl ResizeSpec {
         let ext = t.pick(&p.exts);
         let use_alpha = t.chance(p.alpha_chance);
         // pass mode: make single-pass and shift-only geometries common
+        let (dw0, dh0) = (dw, dh);
         if !matches!(crop, CropSpec::Fit(_, _)) {
             let (cw, ch) = match crop {
                 CropSpec::Box { w, h, .. } => (w, h),
                 _ => (sw as f64, sh as f64),
             };
-            let int_w = cw == cw.round() && cw >= 1.0 && cw <= 70000.0;
-            let int_h = ch == ch.round() && ch >= 1.0 && ch <= 70000.0;
-            match t.weighted(&[160, 36, 36, 24]) {
-                1 if int_h => dh = ch as u32,
-                2 if int_w => dw = cw as u32,
+            let near_int = |v: f64| (v - v.round()).abs() <= 4.0 * f64::EPSILON * v.abs().max(1.0) && v.round() >= 1.0 && v <= 600000.0;
+            let int_w = near_int(cw);
+            let int_h = near_int(ch);
+            match t.weighted(&[150, 32, 32, 22, 20, 12]) {
+                5 => {
+                    // both axes share every parameter although the source is not square
+                    // (code that reuses one axis' tables for the other shows up only here)
+                    let m = sw.min(sh);
+                    let (l0, w0) = match crop {
+                        CropSpec::Box { l, w, .. } if l + w <= m as f64 => (l, w),
+                        _ => (0.0, m as f64),
+                    };
+                    crop = CropSpec::Box { l: l0, t: l0, w: w0, h: w0 };
+                    crop_class = (crop_class.0, crop_class.0);
+                    dh = dw;
+                }
+                1 if int_h => dh = ch.round() as u32,
+                2 if int_w => dw = cw.round() as u32,
                 3 => {
                     if int_h {
-                        dh = ch as u32
+                        dh = ch.round() as u32
                     }
                     if int_w {
-                        dw = cw as u32
+                        dw = cw.round() as u32
+                    }
+                }
+                4 => {
+                    // keep the aspect ratio (what most callers do): dh follows dw
+                    if cw > 0.0 && ch > 0.0 {
+                        let v = (dw as f64 * ch / cw).round();
+                        if v >= 1.0 && v * (dw as f64) <= p.max_pixels as f64 {
+                            dh = v as u32;
+                        }
                     }
                 }
                 _ => {}
             }
+        }
+        if dw as u64 * dh as u64 > (p.max_pixels.max(1 << 20)) {
+            // a forced geometry may not blow the destination up
+            dw = dw0;
+            dh = dh0;
         }
         ResizeSpec {
             pt,
@@ -631,6 +704,7 @@ pub fn crop_class_name(c: u8) -> &'static str {
         4 => "subpix",
         5 => "subpix-edge",
         6 => "shifted-int",
+        7 => "ulp-neighbour",
         _ => "fit",
     }
 }
